@@ -34,11 +34,11 @@ type OpsInfo struct {
 	W bool `json:"w"`
 }
 type Topo struct {
-	Peers []string                   `json:"peers"`
-	LF    map[string]FeatInfo        `json:"lf"`
-	LFnRaw map[string]json.RawMessage `json:"lfn"`
-	RF    map[string]FeatInfo        `json:"rf"`
-	LFn   map[string]map[string]OpsInfo `json:"-"`
+	Peers  []string                      `json:"peers"`
+	LF     map[string]FeatInfo           `json:"lf"`
+	LFnRaw map[string]json.RawMessage    `json:"lfn"`
+	RF     map[string]FeatInfo           `json:"rf"`
+	LFn    map[string]map[string]OpsInfo `json:"-"`
 }
 
 func parseTopo(b []byte) (*Topo, error) {
@@ -154,7 +154,7 @@ type Peer struct {
 	devAddr string
 	w       *Writer
 	reader  shipapi.ShipConnectionDataReaderInterface
-	ctr     uint64 // message counter of datagrams this peer sends
+	ctr     uint64            // message counter of datagrams this peer sends
 	lastReq map[string]uint64 // function -> counter of the last request the stack sent us
 }
 
